@@ -29,6 +29,10 @@ pub enum Strategy {
     Pct { prio: Vec<u64>, change_at: Vec<usize> },
     /// Hold `victim` at its `nth` Enter(Write) until no other thread is enabled.
     StallWriter { victim: usize, nth: usize },
+    /// Supplementary net, not the deciding search: no baton at all — the threads run truly in parallel
+    /// and the hooks only record events and evaluate the probe. Reaches races inside synchronisation
+    /// the lock wrapper does not see (a lock or atomic added elsewhere). Not replayable.
+    FreeRun,
     /// Replay: forced choices. strict = diverging is an error; otherwise fall back to
     /// "continue the current thread, else lowest enabled id".
     Forced { choices: Vec<u8>, strict: bool },
@@ -95,6 +99,8 @@ struct State {
     /// threads presumed blocked outside the lock model (running, but not at a scheduling point)
     detached: Vec<bool>,
     nondeterministic: bool,
+    free_run: bool,
+    free_go: bool,
 }
 
 pub struct SimHooks {
@@ -190,6 +196,7 @@ impl State {
             return None;
         }
         let pick = match &mut self.strategy {
+            Strategy::FreeRun => en[0],
             Strategy::Random => en[self.rng.usize_below(en.len())],
             Strategy::Sticky { stay } => {
                 let stay = *stay;
@@ -266,6 +273,39 @@ impl Shared {
             drop(st);
             if matches!(ev, Some(SchedEvent::Enter(_))) && !std::thread::panicking() {
                 std::panic::resume_unwind(Box::new(AbortRun));
+            }
+            return;
+        }
+        if st.free_run {
+            match ev {
+                None => {
+                    st.status[tid] = TStatus::Ready;
+                    self.main_cv.notify_all();
+                    while !st.free_go && !st.abort {
+                        st = self.cvs[tid].wait(st).unwrap();
+                    }
+                }
+                Some(e) => {
+                    let (what, ls): (&'static str, heathcliff::verif_hooks::LockSite) = match e {
+                        SchedEvent::Enter(l) => (if l.kind == LockKind::Write { "enter-w" } else { "enter-r" }, l),
+                        SchedEvent::Acquired(l) => (if l.kind == LockKind::Write { "acq-w" } else { "acq-r" }, l),
+                        SchedEvent::TryEnter(l) => (if l.kind == LockKind::Write { "try-w" } else { "try-r" }, l),
+                        SchedEvent::TryResult(l, ok) => (if ok { "try-ok" } else { "try-busy" }, l),
+                        SchedEvent::Released(l) => (if l.kind == LockKind::Write { "rel-w" } else { "rel-r" }, l),
+                    };
+                    let id = st.lock_id(ls.lock);
+                    st.trace.push(TraceEv { tid, what, lock: id, site: short_file(ls.file), line: ls.line });
+                    st.steps += 1;
+                    st.last_progress = Instant::now();
+                    if let Some(mut p) = st.probe.take() {
+                        let r = p(&st.trace);
+                        st.probe = Some(p);
+                        if let Err(d) = r {
+                            st.fail("invariant", d);
+                            self.main_cv.notify_all();
+                        }
+                    }
+                }
             }
             return;
         }
@@ -422,6 +462,7 @@ impl Shared {
         let mut st = self.m.lock().unwrap();
         st.status[tid] = TStatus::Finished;
         st.finished += 1;
+        st.last_progress = Instant::now();
         if !st.abort {
             // after an abort the threads free-run; their order is not part of the simulated history
             st.trace.push(TraceEv { tid, what: "finish", lock: 0, site: "", line: 0 });
@@ -433,6 +474,10 @@ impl Shared {
                 l.writer = None;
             }
             l.readers.retain(|&t| t != tid);
+        }
+        if st.free_run {
+            self.main_cv.notify_all();
+            return;
         }
         let was_detached = st.detached[tid];
         st.detached[tid] = false;
@@ -534,7 +579,7 @@ pub fn simulate<R: Send + 'static>(
             lock_addr: Vec::new(),
             locks: Vec::new(),
             policy: cfg.policy,
-            strategy: cfg.strategy,
+            strategy: cfg.strategy.clone(),
             rng: Prng::new(cfg.sched_seed),
             trace: Vec::new(),
             choices: Vec::new(),
@@ -551,10 +596,15 @@ pub fn simulate<R: Send + 'static>(
             held_victim: false,
             detached: vec![false; n],
             nondeterministic: false,
+            free_run: false,
+            free_go: false,
         }),
         cvs: (0..n).map(|_| Condvar::new()).collect(),
         main_cv: Condvar::new(),
     });
+    if matches!(cfg.strategy, Strategy::FreeRun) {
+        shared.m.lock().unwrap().free_run = true;
+    }
     let results: Arc<Mutex<Vec<Option<Caught<R>>>>> = Arc::new(Mutex::new((0..n).map(|_| None).collect()));
     let draws: Arc<Mutex<Vec<u64>>> = Arc::new(Mutex::new(vec![0; n]));
     let tids: Arc<Vec<AtomicU64>> = Arc::new((0..n).map(|_| AtomicU64::new(0)).collect());
@@ -588,6 +638,29 @@ pub fn simulate<R: Send + 'static>(
         }
         // canonical order of "start" events regardless of real arrival order
         st.trace.sort_by_key(|e| e.tid);
+        if st.free_run {
+            st.free_go = true;
+            st.nondeterministic = true;
+            shared.wake_all();
+            st.last_progress = Instant::now();
+            loop {
+                if st.finished == n {
+                    break;
+                }
+                let (g, _) = shared.main_cv.wait_timeout(st, Duration::from_millis(50)).unwrap();
+                st = g;
+                if st.finished < n && st.last_progress.elapsed() > Duration::from_secs(cfg.stall_secs) {
+                    st.fail("stall", format!("free-running threads made no progress for {} s (deadlock?)", cfg.stall_secs));
+                    shared.wake_all();
+                    let deadline = Instant::now() + Duration::from_secs(5);
+                    while st.finished < n && Instant::now() < deadline {
+                        let (g, _) = shared.main_cv.wait_timeout(st, Duration::from_millis(100)).unwrap();
+                        st = g;
+                    }
+                    break;
+                }
+            }
+        } else {
         match st.choose(None) {
             Some(first) => {
                 st.current = Some(first);
@@ -659,6 +732,7 @@ pub fn simulate<R: Send + 'static>(
                 }
                 break;
             }
+        }
         }
     }
     let all_done = shared.m.lock().unwrap().finished == n;
